@@ -55,6 +55,7 @@ struct FileState {
     listening: Option<String>,
     stored: Vec<String>,
     temp_ctr: usize,
+    last_temp: Option<String>,
 }
 
 impl Gen<'_> {
@@ -250,17 +251,24 @@ impl Gen<'_> {
                 f.b.group(ls);
             }
             "temp" => {
-                f.temp_ctr += 1;
-                let tdir = if self.rng.chance(1, 4) {
-                    (*self.rng.pick(&DIRS)).to_string()
-                } else {
-                    f.dir.clone()
+                // now and then the same target again (content of the later directive wins)
+                let tpath = match (&f.last_temp, self.rng.chance(1, 4)) {
+                    (Some(t), true) => t.clone(),
+                    _ => {
+                        f.temp_ctr += 1;
+                        let tdir = if self.rng.chance(1, 4) {
+                            (*self.rng.pick(&DIRS)).to_string()
+                        } else {
+                            f.dir.clone()
+                        };
+                        if tdir.is_empty() {
+                            format!("t{}_{}.tmp", f.idx, f.temp_ctr)
+                        } else {
+                            format!("{tdir}/t{}_{}.tmp", f.idx, f.temp_ctr)
+                        }
+                    }
                 };
-                let tpath = if tdir.is_empty() {
-                    format!("t{}_{}.tmp", f.idx, f.temp_ctr)
-                } else {
-                    format!("{tdir}/t{}_{}.tmp", f.idx, f.temp_ctr)
-                };
+                f.last_temp = Some(tpath.clone());
                 let mut ls = vec![format!("{ws}{prefix}TXTPP#temp{sp}{}", rel_path(&f.dir, &tpath))];
                 for _ in 0..self.rng.below(4) {
                     let a = *self.rng.pick(&["body", "", "  x", "TXTPP#run no", "ü", "T1"]);
@@ -398,6 +406,7 @@ pub fn gen(prop: &str, seed: u64, index: u64, _tier: Tier) -> Case {
             listening: None,
             stored: vec![],
             temp_ctr: 0,
+            last_temp: None,
         };
         let deps: Vec<(String, String)> = dep_edges[i].iter().map(|j| (paths[*j].clone(), outs[*j].clone())).collect();
         let n_elems = g.rng.range(0, 10);
